@@ -23,7 +23,7 @@ OPS_BUILDERS = ["Dense", "DensePD", "Diag", "ConstantDiag", "Toeplitz", "Triangu
                 "KroneckerAddedConstDiag", "AddedDiag", "LowRankRootAddedDiag", "Sum", "Matmul", "Mul", "ConstantMul", "BlockDiag",
                 "BlockInterleaved", "SumBatch", "BatchRepeat", "CatRows", "Interpolated", "Masked", "Kernel", "Identity", "Zero"]
 UTILS = ["alias_inner", "one_by_one", "linear_cg", "minres", "lanczos", "psd_safe_cholesky", "stable_qr", "toeplitz", "sparse", "interp", "pivoted_cholesky", "kron_solve",
-         "cat_rows", "inplace_methods", "batch_repeat"]
+         "cat_rows", "inplace_methods", "batch_repeat", "function_backward"]
 
 
 def cells(tier, seed):
@@ -306,6 +306,25 @@ def harness(ctx):
         quiet(lambda: op.cat_rows(cross, new + 10.0))
         quiet(lambda: op.add_low_rank(layout(ctx, "lowrank", (n, 1), lay)))
         ctx.assert_no_mutation("cat_rows / add_low_rank")
+        return
+    if g == "function_backward":
+        # backward of the library's autograd Functions, driven directly with caller-owned grad_outputs (the tensors a caller hands to
+        # torch.autograd.grad(..., grad_outputs=...)): they must come back unchanged
+        import types
+
+        from linear_operator.functions._root_decomposition import RootDecomposition
+        A = ctx.leaf("A", (n, n))
+        q = ctx.leaf("q_mat", (n, n))
+        ev = ctx.leaf("root_evals", (n,), positive=True)
+        for want_root, want_inv in ((True, True), (True, False), (False, True)):
+            inv = q / ev.unsqueeze(-2)
+            fctx = types.SimpleNamespace(needs_input_grad=(False,) * 9 + (True,), saved_tensors=(A, q, ev, inv if want_inv else torch.empty(0, dtype=torch.float64)),
+                                         inverse=want_inv, root=want_root, _linear_op=linear_operator.operators.DenseLinearOperator(A))
+            tag = f"root={want_root},inverse={want_inv}"
+            g_root = layout(ctx, f"grad_root[{tag}]", (n, n), lay) if want_root else torch.empty(0, dtype=torch.float64)
+            g_inv = layout(ctx, f"grad_inverse[{tag}]", (n, n), lay) if want_inv else torch.empty(0, dtype=torch.float64)
+            quiet(lambda: RootDecomposition.backward(fctx, g_root, g_inv))
+            ctx.assert_no_mutation(f"RootDecomposition.backward({tag})")
         return
     if g == "inplace_methods":
         for name in ("Dense", "Kronecker", "Interpolated", "AddedDiag"):
